@@ -100,6 +100,146 @@ pub fn run_on_fresh_thread(property: &str, sc: &Scenario) -> RunReport {
     })
 }
 
+/// Scenario generation may execute a probe run (C13), so it gets a fresh
+/// thread as well.
+pub fn generate_on_fresh_thread(property: &str, seed: u64, thorough: bool) -> Scenario {
+  let property = property.to_string();
+  std::thread::Builder::new()
+    .name("G".into())
+    .stack_size(64 << 20)
+    .spawn(move || check::generate(&property, seed, thorough))
+    .unwrap()
+    .join()
+    .unwrap_or_else(|_| {
+      eprintln!("harness error: generator panicked: {:?}", exec::take_panics());
+      std::process::exit(2);
+    })
+}
+
+/// One simulation per process: lazily initialised statics inside ord and its
+/// dependencies create hash maps on first use, which shifts std's per-thread
+/// hash-key counter; in a process that has already run a simulation they are
+/// initialised at different moments, the cache flush order changes and with
+/// it the disk operation stream. A fresh process per run makes every
+/// execution start from the same state.
+fn one(args: &[String]) -> i32 {
+  let property = &args[0];
+  let thorough = arg(args, "--tier") == Some("thorough");
+  let sc = match arg(args, "--scenario") {
+    Some(path) => match std::fs::read_to_string(path).ok().and_then(|t| serde_json::from_str::<Scenario>(&t).ok()) {
+      Some(sc) => sc,
+      None => {
+        eprintln!("harness error: cannot read scenario {path}");
+        return 2;
+      }
+    },
+    None => generate_on_fresh_thread(property, arg_u64(args, "--seed", 1), thorough),
+  };
+  let report = run_on_fresh_thread(property, &sc);
+  let emit = args.iter().any(|a| a == "--emit-scenario") || !report.violations.is_empty();
+  let mut line = json!({"report": report});
+  if emit {
+    line["scenario"] = serde_json::to_value(&sc).unwrap();
+  }
+  println!("{line}");
+  std::fs::remove_dir_all(format!("/verif/build/simfs/{}", std::process::id())).ok();
+  0
+}
+
+/// Run `f` in a forked child of this (single-threaded, simulation-free)
+/// process and return what it prints. The child starts from the same pristine
+/// state as a freshly executed process, at a fraction of the cost.
+fn in_fork(f: impl FnOnce() -> String) -> Result<String, String> {
+  use std::io::Read;
+  let mut fds = [0i32; 2];
+  // SAFETY: plain libc calls; the parent has no other threads when simulations are forked
+  unsafe {
+    if libc::pipe(fds.as_mut_ptr()) != 0 {
+      return Err("pipe failed".into());
+    }
+    let pid = libc::fork();
+    if pid < 0 {
+      return Err("fork failed".into());
+    }
+    if pid == 0 {
+      libc::close(fds[0]);
+      let text = f();
+      let bytes = text.as_bytes();
+      let mut off = 0;
+      while off < bytes.len() {
+        let n = libc::write(fds[1], bytes[off..].as_ptr() as *const libc::c_void, bytes.len() - off);
+        if n <= 0 {
+          break;
+        }
+        off += n as usize;
+      }
+      libc::close(fds[1]);
+      std::fs::remove_dir_all(format!("/verif/build/simfs/{}", std::process::id())).ok();
+      libc::_exit(0);
+    }
+    libc::close(fds[1]);
+    let mut file = <std::fs::File as std::os::fd::FromRawFd>::from_raw_fd(fds[0]);
+    let mut text = String::new();
+    let read = file.read_to_string(&mut text);
+    let mut status = 0;
+    libc::waitpid(pid, &mut status, 0);
+    if read.is_err() || text.is_empty() {
+      return Err(format!("simulation process died (wait status {status:#x})"));
+    }
+    Ok(text)
+  }
+}
+
+fn parse_child(text: Result<String, String>) -> (RunReport, Option<Scenario>) {
+  match text {
+    Ok(text) => {
+      if let Ok(val) = serde_json::from_str::<Value>(&text)
+        && let Ok(report) = serde_json::from_value::<RunReport>(val["report"].clone())
+      {
+        let sc = val.get("scenario").and_then(|s| serde_json::from_value(s.clone()).ok());
+        return (report, sc);
+      }
+      (
+        RunReport {
+          harness_error: Some("simulation process produced no report".into()),
+          ..Default::default()
+        },
+        None,
+      )
+    }
+    Err(e) => (
+      RunReport {
+        harness_error: Some(e),
+        ..Default::default()
+      },
+      None,
+    ),
+  }
+}
+
+/// Generate from a seed and run, in a pristine child process.
+pub fn run_seed_isolated(property: &str, seed: u64, thorough: bool, emit: bool) -> (RunReport, Option<Scenario>) {
+  parse_child(in_fork(|| {
+    let sc = generate_on_fresh_thread(property, seed, thorough);
+    let report = run_on_fresh_thread(property, &sc);
+    let emit = emit || !report.violations.is_empty();
+    let mut line = json!({"report": report});
+    if emit {
+      line["scenario"] = serde_json::to_value(&sc).unwrap();
+    }
+    line.to_string()
+  }))
+}
+
+/// Run a given scenario in a pristine child process.
+pub fn run_isolated(property: &str, sc: &Scenario) -> RunReport {
+  parse_child(in_fork(|| {
+    let report = run_on_fresh_thread(property, sc);
+    json!({"report": report}).to_string()
+  }))
+  .0
+}
+
 fn seed_for(base: u64, i: u64) -> u64 {
   base.wrapping_mul(1 << 32).wrapping_add(i)
 }
@@ -108,6 +248,7 @@ pub fn main(args: &[String]) -> i32 {
   exec::install_panic_hook();
   match args.first().map(|s| s.as_str()) {
     Some("worker") => worker(&args[1..]),
+    Some("one") => one(&args[1..]),
     Some("check") => coordinator(&args[1..]),
     Some("replay") => replay(&args[1..]),
     Some("run") => run_one(&args[1..]),
@@ -124,7 +265,7 @@ fn run_one(args: &[String]) -> i32 {
   let property = &args[0];
   let seed = arg_u64(args, "--seed", 1);
   let thorough = arg(args, "--tier") == Some("thorough");
-  let sc = check::generate(property, seed, thorough);
+  let sc = generate_on_fresh_thread(property, seed, thorough);
   if args.iter().any(|a| a == "--print") {
     println!("{}", serde_json::to_string_pretty(&sc).unwrap());
   }
@@ -156,11 +297,12 @@ fn worker(args: &[String]) -> i32 {
   let mut done = 0u64;
   while done < max && now_secs() < deadline {
     let seed = seed_for(base, i);
-    let sc = check::generate(&property, seed, thorough);
-    let report = run_on_fresh_thread(&property, &sc);
+    let (report, sc) = run_seed_isolated(&property, seed, thorough, done < 2);
     let mut line = json!({"kind": "run", "i": i, "report": report});
-    if done < 2 {
-      line["scenario"] = serde_json::to_value(&sc).unwrap();
+    if done < 2
+      && let Some(sc) = &sc
+    {
+      line["scenario"] = serde_json::to_value(sc).unwrap();
     }
     {
       let mut out = stdout.lock();
@@ -170,13 +312,19 @@ fn worker(args: &[String]) -> i32 {
     if report.harness_error.is_some() {
       return 2;
     }
+    let Some(sc) = sc.filter(|_| !report.violations.is_empty()) else {
+      i += stride;
+      done += 1;
+      continue;
+    };
     for viol in &report.violations {
       if !shrunk_classes.insert(viol.class.clone()) {
         continue;
       }
-      let s = shrink::shrink(&property, &sc, &viol.class, 250);
-      // confirm in a fresh thread and record the trace of the minimised run
-      let confirm = run_on_fresh_thread(&property, &s.scenario);
+      let budget = if matches!(property.as_str(), "C18" | "C19") { 80 } else { 250 };
+      let s = shrink::shrink(&property, &sc, &viol.class, budget);
+      // confirm in a fresh process and record the trace of the minimised run
+      let confirm = run_isolated(&property, &s.scenario);
       let (scenario, confirmed) = if confirm.violations.iter().any(|x| x.class == viol.class) {
         (s.scenario, confirm)
       } else {
@@ -542,19 +690,6 @@ pub fn finish(
 
 fn replay(args: &[String]) -> i32 {
   let path = &args[0];
-  // re-run in a worker-like process environment (LD_PRELOAD) if not already
-  if std::env::var("ORDSIM_REPLAY_CHILD").is_err()
-    && let Some(p) = preload_path()
-  {
-    let status = Command::new(std::env::current_exe().unwrap())
-      .arg("replay")
-      .args(args)
-      .env("ORDSIM_REPLAY_CHILD", "1")
-      .env("LD_PRELOAD", p)
-      .status()
-      .unwrap();
-    return status.code().unwrap_or(2);
-  }
   let text = match std::fs::read_to_string(path) {
     Ok(t) => t,
     Err(e) => {
@@ -569,7 +704,7 @@ fn replay(args: &[String]) -> i32 {
       return 2;
     }
   };
-  let r = run_on_fresh_thread(&rp.property, &rp.scenario);
+  let r = run_isolated(&rp.property, &rp.scenario);
   if let Some(e) = &r.harness_error {
     eprintln!("harness error: {e}");
     return 2;
@@ -618,18 +753,28 @@ fn determinism(args: &[String]) -> i32 {
       ];
       children.push(spawn_worker(&property, &extra));
     }
-    let mut map = BTreeMap::new();
+    let mut handles = Vec::new();
     for mut child in children {
-      let stdout = child.stdout.take().unwrap();
-      for line in BufReader::new(stdout).lines().map_while(Result::ok) {
-        if let Ok(val) = serde_json::from_str::<Value>(&line)
-          && val["kind"] == "run"
-          && let Ok(r) = serde_json::from_value::<RunReport>(val["report"].clone())
-        {
-          map.insert(val["i"].as_u64().unwrap(), (r.trace, r.trace_len, r.signature));
+      handles.push(std::thread::spawn(move || {
+        let mut rows = Vec::new();
+        let stdout = child.stdout.take().unwrap();
+        for line in BufReader::new(stdout).lines().map_while(Result::ok) {
+          if let Ok(val) = serde_json::from_str::<Value>(&line)
+            && val["kind"] == "run"
+            && let Ok(r) = serde_json::from_value::<RunReport>(val["report"].clone())
+          {
+            rows.push((val["i"].as_u64().unwrap(), (r.trace, r.trace_len, r.signature)));
+          }
         }
+        child.wait().ok();
+        rows
+      }));
+    }
+    let mut map = BTreeMap::new();
+    for h in handles {
+      for (i, t) in h.join().unwrap() {
+        map.insert(i, t);
       }
-      child.wait().ok();
     }
     map
   };
